@@ -163,10 +163,10 @@ type TermBuilder struct {
 	memo map[ssa.Value]*Term
 	busy map[ssa.Value]bool
 	// stores per alloc
-	stores   map[ssa.Value][]*ssa.Store
-	newOrd   map[ssa.Value]int
-	prepared bool
-	busyLoad map[string]bool
+	stores    map[ssa.Value][]*ssa.Store
+	newOrd    map[ssa.Value]int
+	prepared  bool
+	busyLoad  map[string]bool
 	fallbacks int
 	// LivePred, when set, tells whether the edge pred->blk is live (used to
 	// resolve phis under assumptions).
